@@ -79,7 +79,7 @@ type Source struct {
 }
 
 func New(sc Script, password string) (*Source, error) {
-	l, err := net.Listen("tcp", "127.0.0.1:0")
+	l, err := listenRetry()
 	if err != nil {
 		return nil, err
 	}
@@ -96,6 +96,19 @@ func New(sc Script, password string) (*Source, error) {
 	s.cond = sync.NewCond(&s.mu)
 	go s.accept()
 	return s, nil
+}
+
+// listenRetry: a loopback port may be unavailable for a moment when tens of thousands of sockets sit in TIME_WAIT.
+func listenRetry() (net.Listener, error) {
+	var l net.Listener
+	var err error
+	for i := 0; i < 100; i++ {
+		if l, err = net.Listen("tcp", "127.0.0.1:0"); err == nil {
+			return l, nil
+		}
+		time.Sleep(100 * time.Millisecond)
+	}
+	return nil, err
 }
 
 func (s *Source) Close() {
@@ -368,6 +381,10 @@ func (s *Source) writer(c net.Conn, id int, prefix []byte, from int64) {
 		avail := int(int64(len(s.stream)) - pos)
 		if s.dropAt >= 0 && int64(avail) > s.dropAt-pos {
 			avail = int(s.dropAt - pos)
+		}
+		if avail <= 0 {
+			s.mu.Unlock()
+			return
 		}
 		n := next(avail)
 		chunk := append([]byte{}, s.stream[pos:pos+int64(n)]...)
